@@ -1,5 +1,6 @@
 import GambitV.Model.Indexing
 import Driver.Proto
+import Driver.PyGenCmp
 namespace Driver.C20
 open GambitV Driver
 
@@ -53,7 +54,11 @@ def handle : List String → Option String
     let conc := selOf ((getItemConcat (Concat.ofList sigs) idx).map CSel.toSel)
     let r := expect spec real
     if r != "ok" then pure r else
-    pure (if conc == spec then "ok" else s!"FAIL concat model disagrees: {conc}")
+    if conc != spec then pure s!"FAIL concat model disagrees: {conc}" else
+    -- an integer index goes through `_check_index`: the definition generated from the current source must agree with the model
+    pure (match idx with
+      | .int i => (PyGen.checkIndex sigs.length i).getD "ok"
+      | _ => "ok")
   | ["c20.mut", sigs, ops, realList, realErrs] => do
     let sigs ← parseNatLists sigs
     let ops ← if ops == "_" then some [] else (ops.splitOn "|").mapM parseMut
